@@ -245,6 +245,9 @@ func acceptHeader(mode, mt string) []string {
 		return []string{"application/xml;q=0.1, " + mt + ";q=0.9"}
 	case "upper":
 		return []string{strings.ToUpper(mt)}
+	case "nospace":
+		// one header line, no blank after the commas (RFC 9110 makes the whitespace optional)
+		return []string{"application/json," + mt + ",text/plain"}
 	case "all":
 		return []string{mtOCIIndex, mtOCIManifest, mtDockManifest, mtDockList, "*/*"}
 	case "none":
